@@ -221,9 +221,11 @@ def normal_exit(run, fs, res, rep):
         allf = selfv.spec().all_fields()
         for g, term in fs.ghost_update(cexit).items():
             selfv.setfield(g, allf[g].wrap(z3.simplify(_term(term))))
+    lemma_facts = []
     if fs.lemmas:
-        run.assume(*fs.lemmas(cexit))
-    step_facts = {}
+        lemma_facts = [_conj(x) for x in fs.lemmas(cexit)]
+        run.assume(*lemma_facts)
+    step_facts = {'@lemmas': z3.And(*lemma_facts) if lemma_facts else z3.BoolVal(True)}
     for entry in fs.exit_cuts:
         cname, f = entry[0], entry[1]
         uses = entry[2] if len(entry) > 2 else None
